@@ -739,6 +739,10 @@ class Interp(object):
 
   def bv_binop(self, op, a, b):
     t = type(op)
+    if t is ast.Mod and is_z3(a) and isinstance(b, int) and b == 2 ** a.size():
+      return a          # x % 2**w on a w-bit vector: arithmetic already wraps
+    if t in (ast.RShift, ast.LShift) and isinstance(b, int):
+      b = z3.BitVecVal(b, a.size())
     if not is_z3(a):
       a = z3.BitVecVal(a, b.size())
     if not is_z3(b):
@@ -758,10 +762,7 @@ class Interp(object):
     if t is ast.Add:
       return a + b
     if t is ast.Mod:
-      # only `% 2**size` is meaningful here: identity on a bit-vector of that width
-      if not z3.is_bv_value(b):
-        raise EngineError("symbolic bv mod")
-      raise EngineError("bv mod by %s" % b)
+      raise EngineError("bv mod")
     raise EngineError("bv op %s" % t.__name__)
 
   def str_format(self, fmt, arg):
